@@ -82,6 +82,19 @@ def band_event(ev, s, o, g, fn_name, a, alpha, sampler, method, np_seed):
            "simultaneous_joint_region_ci": simultaneous_joint_region_ci,
            "fixed_width_band_ci": fixed_width_band_ci}
     identity = sampler == "identity"
+    stored = []
+
+    def scripted_sampler(src_):
+        """five samples drawn once (seeded), handed out in turn"""
+        if not stored:
+            st_ = np.random.get_state()
+            np.random.seed(4000 + np_seed)
+            stored.extend(src_.bootstrap_sample(BootstrapConfig(sampling_method="replacement")) for _ in range(5))
+            np.random.set_state(st_)
+            stored.append(0)
+        i = stored[-1]
+        stored[-1] = i + 1
+        return stored[i % 5]
     e = ev("band", h=1, fn=fn_name, args=a, alpha=alpha, identity=identity, sampler=sampler, method=method,
            out={"cm": [], "fnr": [], "fpr": [], "fnr_ci": [], "fpr_ci": [], "u": [], "w": [],
                 "shape_ok": True, "nan_free": True, "views_ci": {}, "inputs_untouched": True})
@@ -102,8 +115,8 @@ def band_event(ev, s, o, g, fn_name, a, alpha, sampler, method, np_seed):
             for v_ in kw.values():
                 if isinstance(v_, np.ndarray):
                     v_.flags.writeable = False
-        cfg = BootstrapConfig(nb_samples=6, bootstrap_method=method,
-                              sampling_method=(lambda x: x) if identity else sampler,
+        cfg = BootstrapConfig(nb_samples=5 if sampler == "scripted" else 6, bootstrap_method=method,
+                              sampling_method=(lambda x: x) if identity else scripted_sampler if sampler == "scripted" else sampler,
                               stratified_sampling="by_label" if sampler == "replacement" and np_seed % 2 else None)
         np.random.seed(np_seed)
         pos_before, neg_before = np.array(s.pos, copy=True), np.array(s.neg, copy=True)
@@ -128,6 +141,19 @@ def band_event(ev, s, o, g, fn_name, a, alpha, sampler, method, np_seed):
             a_ = getattr(c, v)
             r["views_ci"][v] = [] if a_ is None or np.asarray(a_).shape != (n, 2) else \
                 [[fx6(x[0]), fx6(x[1])] for x in np.asarray(a_, dtype=float)]
+        if fn_name == "roc_with_ci" and sampler == "scripted" and len(stored) == 6:
+            from score_analysis.utils import bootstrap_ci as _ci
+            pool = stored[:5]
+            cf, cp = np.asarray(c.fnr, dtype=float), np.asarray(c.fpr, dtype=float)
+            r["fnr6"], r["fpr6"] = [fx6(x) for x in cf], [fx6(x) for x in cp]
+            reps_fnr = np.stack([np.asarray(p_.fnr(p_.threshold_at_fpr(cp)), dtype=float) for p_ in pool])
+            reps_fpr = np.stack([np.asarray(p_.fpr(p_.threshold_at_fnr(cf)), dtype=float) for p_ in pool])
+            est_fnr = np.asarray(s.fnr(s.threshold_at_fpr(cp)), dtype=float)
+            est_fpr = np.asarray(s.fpr(s.threshold_at_fnr(cf)), dtype=float)
+            b1 = np.asarray(_ci(theta=reps_fnr, theta_hat=est_fnr, alpha=alpha / 1000.0, method=method))
+            b2 = np.asarray(_ci(theta=reps_fpr, theta_hat=est_fpr, alpha=alpha / 1000.0, method=method))
+            r["boot_fnr"] = [[fx6(x[0]), fx6(x[1])] for x in b1]
+            r["boot_fpr"] = [[fx6(x[0]), fx6(x[1])] for x in b2]
         if fn_name == "roc_with_ci" and identity:
             # what every replicate equals under an identity sampler (same public API)
             r["u"] = rats(s.fnr(s.threshold_at_fpr(np.asarray(c.fpr))))
@@ -191,6 +217,8 @@ def events_for_case(o, cid, g, ids, seed, tier):
         if (cid + j) % 3 == 0 or tier == "thorough":
             band_event(ev, s, o, g, "roc_with_ci", a, alpha,
                        ["replacement", "single_pass", "dynamic"][(cid + j) % 3], methods[j % 3], seed + cid + j)
+        if (cid + j) % 3 == 1 or tier == "thorough":
+            band_event(ev, s, o, g, "roc_with_ci", a, alpha, "scripted", methods[(cid + j) % 3], seed + cid + j)
         fn2 = ["pointwise_band_ci", "simultaneous_joint_region_ci", "fixed_width_band_ci"][(cid + j) % 3]
         if fn2 == "fixed_width_band_ci" and (a["fnr"] or a["fpr"] or a["thr"]):
             fn2 = "pointwise_band_ci"        # the property scopes FWB to nb_points / all scores
